@@ -337,8 +337,11 @@ func genCall(t *rapid.T, label string, nAttempts int) Op {
 	case "device_authorization":
 		o.Arg = pick(t, label+"arg", "config-scopes", "config-scopes", "own-scopes", "no-scopes")
 	case "auth_url":
-		o.Arg = pick(t, label+"arg", "", "prompt", "challenge", "param", "all")
+		o.Arg = pick(t, label+"arg", "", "prompt", "challenge", "param", "all", "opts", "opts")
 		o.State = genState(t, label+"state", nil)
+		if o.Arg == "opts" {
+			o.Extras = genURLParams(t, label+"opt")
+		}
 	case "code_exchange":
 		o.Arg = pick(t, label+"arg", "bogus", "bogus", "attempt")
 		if nAttempts > 0 {
@@ -428,6 +431,10 @@ func (w *world) call(i int, o Op) {
 		}
 		if o.Arg == "param" || o.Arg == "all" {
 			opts = append(opts, rp.AuthURLOpt(rp.WithURLParam("ui_locales", "de en")), rp.AuthURLOpt(rp.WithResponseModeURLParam(oidc.ResponseModeQuery)))
+		}
+		// the URL parameter options of the handlers, used as options of rp.AuthURL
+		for _, p := range w.urlParamOpts("auth_url", o.Extras) {
+			opts = append(opts, rp.AuthURLOpt(p))
 		}
 		state := o.State
 		if state == "" || state == "huge" {
